@@ -425,6 +425,19 @@ Clear ==
     /\ selfReg' = ClearKeepsSelf
     /\ ret' = <<"ok", 0, "-">> /\ UNCHANGED <<pprio, pworld, bad>>
 
+\* clear() during which the on_remove callback of component c schedules (deferred delete_entity) entity e2 - a parent
+\* scheduling its children, which clear() may already have torn down: a cleared world has no pending deletion,
+\* whatever the callbacks asked for meanwhile; the identifiers handed out afterwards name living entities
+ClearScheduler(c, e2) ==
+    /\ "clear" \in Acts /\ "fault" \in Acts /\ enabled /\ "on_remove" \in Decl[c] /\ c \in Attached(rows)
+    /\ LET w1 == DeleteMany(W0, DOMAIN rows)
+           w2 == RemoveAllProcs(w1, procs) IN
+       /\ rows' = w2.rows /\ index' = w2.index /\ log' = w2.log
+       /\ queue' = <<>> /\ reg' = {}
+    /\ dead' = {} /\ nextAuto' = 1 /\ procs' = <<>> /\ enabled' = TRUE /\ probeKnown' = FALSE
+    /\ selfReg' = ClearKeepsSelf
+    /\ ret' = <<"ok", 0, "-">> /\ UNCHANGED <<pprio, pworld, bad>>
+
 \* --- dispatch_enabled = b ------------------------------------------------------------------------------
 \* queue entries: lifecycle relays <<cb, who, ent, first>>, probes <<"probe", "-", tok, TRUE>>
 RECURSIVE Release(_, _, _)
@@ -504,6 +517,7 @@ Next == \/ (\E id \in Ids \cup {NoEnt}, cs \in CompSeqs : CreateEntity(id, cs))
         \/ (\E id \in Ids, c \in Comps, d \in Comps : CreateDisabling(id, c, d))
         \/ (\E i \in 1..MaxQ : SetEnabledFault(i))
         \/ Clear
+        \/ (\E c \in Comps, e2 \in Ids \cup (1..MaxAuto) : ClearScheduler(c, e2))
         \/ (\E b \in BOOLEAN : SetEnabled(b))
         \/ (\E tok \in {7} : Probe(tok))
         \/ (\E tok \in {7}, c \in Comps, e2 \in Ids : ProbeKiller(tok, c, e2))
